@@ -65,8 +65,8 @@ def methods():
             if n.startswith("_") or n.startswith(MUT_PREFIX):
                 continue
             out.append((cls.__name__, n))
-        for n in ("__len__", "__iter__", "__contains__", "__str__", "__getitem__", "__lshift__"):
-            if hasattr(cls, n):
+        for n in ("__len__", "__iter__", "__contains__", "__str__", "__getitem__", "__lshift__", "__ilshift__"):
+            if hasattr(cls, n) or (n == "__ilshift__" and hasattr(cls, "__lshift__")):
                 out.append((cls.__name__, n))
     for vn in ("nodes", "edges"):
         for n in ("members", "memberships", "dimembers", "dimemberships", "head", "tail", "sources", "targets", "filterby", "filterby_attr", "neighbors", "duplicates",
@@ -152,9 +152,9 @@ def arg_for(name, fn, net, rng, td):
 
 
 OPTIONAL = {
-    "sparse": (True, False), "index": (True, False), "weighted": (True, False), "s": (1, 2), "normalized": (True, False), "rescale_per_node": (True, False),
+    "sparse": (True, False, np.True_, np.False_), "index": (True, False, np.True_), "weighted": (True, False, np.True_), "s": (1, 2), "normalized": (True, False), "rescale_per_node": (True, False),
     "exact": (True,), "num_samples": (20,), "max_iter": (10,), "return_phantom_graph": (True, False), "seed": (0, 7, None), "kind": None, "subset_types": ("all", "immediate", "empirical"),
-    "in_place": (False,), "timesteps": (5,), "n_steps": (5,), "T": (0.1,), "keep_isolates": (True, False), "min_size": (1, 2, 3), "exclude_min_size": (True, False),
+    "in_place": (False, False, np.False_, 0), "timesteps": (5,), "n_steps": (5,), "T": (0.1,), "keep_isolates": (True, False), "min_size": (1, 2, 3), "exclude_min_size": (True, False),
     "normalize": (True, False), "max_order": (None, 1, 2), "ignore_singletons": (True, False), "include_self": (True, False), "hull": (False, True), "label_attribute": ("label", "old"),
     "cutoff": (5,), "k": (None,), "collection_name": ("", "c"), "delimiter": (" ", ","), "node_labels": (True, False), "hyperedge_labels": (True, False), "dual": (False, True),
     "order": (None, 1, 2), "equidistant": (False, True),
@@ -247,7 +247,7 @@ def call_method(owner, name, net, rng, td):
             "stats": lambda: _all_stats(net, owner, rng),
         }
         return table[name], f"net.{owner}.{name}(...)"
-    attr = inspect.getattr_static(getattr(xgi, owner), name)
+    attr = inspect.getattr_static(getattr(xgi, owner), name, None)
     if isinstance(attr, property):
         return (lambda: getattr(net, name)), f"net.{name}"
     table = {
@@ -261,6 +261,7 @@ def call_method(owner, name, net, rng, td):
         "__str__": lambda: str(net),
         "__getitem__": lambda: net["name"],
         "__lshift__": lambda: net << _other(net, rng),
+        "__ilshift__": lambda: _ilshift(net, rng),
     }
     if name in table:
         return table[name], f"net.{name}(...)"
@@ -270,6 +271,13 @@ def call_method(owner, name, net, rng, td):
     if req:
         raise KeyError(name)
     return (lambda: f()), f"net.{name}()"
+
+
+def _ilshift(net, rng):
+    """`acc <<= other` is the union spelled as augmented assignment: it rebinds `acc`, the network itself stays as it was."""
+    acc = net
+    acc <<= _other(net, rng)
+    return acc
 
 
 def _other(net, rng):
@@ -291,6 +299,21 @@ def _all_stats(net, owner, rng):
     out = []
     for sname in mod.__all__:
         st = getattr(v, sname)
+        try:
+            pars = [p for p in list(inspect.signature(getattr(mod, sname)).parameters)[2:]]
+        except (TypeError, ValueError):
+            pars = []
+        kw = {}
+        for pname in pars:  # the option variants: order=, degree=, weight=, kind= ...
+            if pname in ("order", "degree") and rng.random() < 0.7:
+                kw[pname] = rng.choice((0, 1, 2))
+            elif pname == "weight" and rng.random() < 0.5:
+                kw[pname] = "weight"
+        if kw:
+            try:
+                out.append(st(**kw).asdict())
+            except Exception as exc:
+                out.append(type(exc).__name__)
         for form in ("asdict", "aslist", "asnumpy", "aspandas"):
             try:
                 out.append(getattr(st, form)())
